@@ -11,6 +11,14 @@ PY = "/venv/bin/python"
 
 # property -> (technique, level text, level note, design ref)
 CLAIMED = {
+    "C18": ("TLA+ specification of interp_axis / interp_like (spec/MC_C18.tla: bracketing nodes in sorted order and exact rational weights per "
+            "output cell, fills outside the range) model-checked by TLC (ExactAtNodes, AxisIsNew, OrderIndependent) and replayed",
+            "TLC enumerates every node sequence over the universe in every stored order x new coordinate vectors over a half-unit grid (points below, "
+            "on, between and above the nodes, in any order) x fills x issorted, at every axis position of 1-3-d arrays with int and float data, and "
+            "interp_like templates sharing one or two dims; the spec gives for each output cell the two bracketing cells and num/den; the harness "
+            "evaluates lo + num/den*(hi-lo) and compares (rtol 1e-12); in 1-d also against numpy.interp on the sorted fibre.",
+            "Trusted: TLC, projection/concretisation, float evaluation of the lerp terms. Known finding K02 is reported.",
+            "5 (C18)"),
     "C17": ("TLA+ specification of sort_axis / take_axis / compress_axis / dropna / fillna / setna (spec/MC_C17.tla) model-checked by TLC "
             "(SlicesWithLabels, SortedResult incl. idempotence, DropKeepsOrder, FillExactly) and replayed",
             "TLC enumerates 1-3-d arrays with every NaN pattern on <= 4 cells (slice / all / sparse families beyond), int and float data, every axis, "
